@@ -553,6 +553,90 @@ def own_case(case, s):
     return None
 
 
+# ---- reference of the *documented* behaviour at the pinned commit. It is used only by the
+# `covered` predicates: an input lies in a known finding's region iff the documented
+# algorithm itself misbehaves on it in the same way. Never used by `check`.
+DOC_STOP_WORDS = {
+    "", "Any", "Decimal", "Enum", "False", "Meta", "None", "Optional", "QName", "True", "Union", "and", "as", "assert",
+    "async", "bool", "break", "class", "continue", "def", "del", "dict", "elif", "else", "except", "field", "Field",
+    "finally", "float", "for", "from", "global", "if", "import", "in", "int", "is", "lambda", "list", "nonlocal", "not",
+    "object", "or", "pass", "raise", "return", "self", "str", "try", "type", "validate", "while", "with", "yield",
+}
+DOC_URI_IGNORE = ("www", "xsd", "wsdl")
+
+
+def ref_case(case, s):
+    if case == "originalCase":
+        return re.sub(r"^[^a-zA-Z_]+", "", re.sub(r"\W", "", s))
+    return own_case(case, s)
+
+
+def ref_safe_name(name, prefix, case, depth=0):
+    """Documented Filters.safe_name; None = does not terminate."""
+    if depth > 40:
+        return None
+    nxt = lambda n: ref_safe_name(n, prefix, case, depth + 1)  # noqa: E731
+    if not name:
+        return nxt(prefix)
+    if re.fullmatch(r"-\d*\.?\d+\n?", name):
+        return nxt(f"{prefix}_minus_{name}")
+    slug = own_slug(name)
+    if not slug or not slug[0].isalpha():
+        return nxt(f"{prefix}_{name}")
+    result = ref_case(case, name)
+    if result in DOC_STOP_WORDS:
+        return nxt(f"{name}_{prefix}")
+    return result
+
+
+def ref_clean_uri(ns):
+    if ns[:2] == "##":
+        ns = ns[2:]
+    left, sep, right = ns.partition(":")
+    if not right:
+        left, right = None, left
+    if left == "urn":
+        ns = right
+    elif left in ("http", "https"):
+        ns = right[2:]
+    return "_".join(x for x in ns.split(".") if x not in DOC_URI_IGNORE)
+
+
+def ref_rename(spec):
+    """Documented ClassUtils.rename_duplicate_attributes on [{tag,name,ns}] -> names."""
+    names = [x["name"] for x in spec]
+    groups = {}
+    for i, x in enumerate(spec):
+        groups.setdefault(own_slug(x["name"]) or "value", []).append(i)
+    for g in groups.values():
+        if len(g) == 2 and spec[g[0]]["tag"] != "Enumeration":
+            i, j = g
+            a, b = spec[i], spec[j]
+            if a["tag"] == b["tag"] and (a["ns"] or b["ns"]):
+                k = j if b["ns"] else i
+                names[k] = f"{ref_clean_uri(spec[k]['ns'])}_{names[k]}"
+            else:
+                k = j if b["tag"] in ("Attribute", "AnyAttribute") else i
+                names[k] = f"{names[k]}_{spec[k]['tag']}"
+        elif len(g) > 1:
+            for k in g[1:]:
+                reserved = {own_slug(n) for n in names}
+                if own_slug(names[k]) in reserved:
+                    idx = 1
+                    while own_slug(f"{names[k]}_{idx}") in reserved:
+                        idx += 1
+                    names[k] = f"{names[k]}_{idx}"
+    return names
+
+
+def ref_field_names(spec):
+    names = ref_rename(spec)
+    return names, [
+        ref_safe_name(n, "value", "screamingSnakeCase" if x["tag"] == "Enumeration" else "snakeCase")
+        for n, x in zip(names, spec)
+    ]
+
+
 def importable_name(n):
     """Can `n` be used as a class/field/module name in Python source?"""
     if not isinstance(n, str) or not n.isidentifier() or keyword.iskeyword(n):
@@ -611,19 +695,35 @@ def covered_ident(a, msg):
     s = a["s"]
     case = a.get("case") or KIND_CONV[a["kind"]][0]
     pfx = a.get("prefix") if "kind" not in a else KIND_CONV[a["kind"]][1]
-    if "RecursionError" in msg and not prefix_ok(pfx):
-        return "C07-safe-prefix-recursion"
-    parts = s.split(".") if a.get("kind") == "package" else [s]
-    if "is a Python keyword" in msg and any(own_slug(p) == "await" for p in parts) and "'await' is" in msg:
+    if a.get("kind") == "module":
+        expected = ref_safe_name(ref_clean_uri(s), pfx, case)
+    elif a.get("kind") == "package":
+        parts = [ref_safe_name(p, pfx, case) for p in s.split(".")]
+        expected = None if None in parts else ".".join(parts)
+    else:
+        expected = ref_safe_name(s, pfx, case)
+    if "RecursionError" in msg:
+        # the documented algorithm does not terminate either, because of the prefix
+        return "C07-safe-prefix-recursion" if expected is None and not prefix_ok(pfx) else None
+    m = re.search(r"\) = '(.*)': '", msg)
+    if expected is None or not m or m.group(1) != expected:
+        return None  # not what the documented algorithm produces: a new defect
+    bad = [p for p in expected.split(".") if not importable_name(p)]
+    if bad and all(p == "await" for p in bad):
         return "C07-await-not-reserved"
-    if a.get("kind") == "module" and "is a Python keyword" in msg and own_slug(s).endswith("await") and "'await' is" in msg:
-        return "C07-await-not-reserved"
-    if case == "originalCase" and "not an identifier" in msg and nonxid_word_chars(s):
+    if case == "originalCase" and bad and all(nonxid_word_chars(p) for p in bad):
         return "C07-original-case-non-xid"
     return None
 
 
 def gen_oracle_ident(rng, tier):
+    words = keyword.kwlist + keyword.softkwlist + sorted(DOC_STOP_WORDS) + ["print", "exec", "nonlocal_", "Await"]
+    for w in words:
+        for v in (w, w.lower(), w.upper(), w.capitalize(), "_" + w, w + "-", w[:2] + "-" + w[2:]):
+            for k in KINDS:
+                yield {"kind": k, "s": v}
+            for c in CASES:
+                yield {"case": c, "prefix": "value", "s": v}
     for s in _names(rng, tier, 3, 3000):
         for k in KINDS:
             yield {"kind": k, "s": s}
@@ -669,33 +769,33 @@ def _collisions(finals):
 
 def covered_fields(a, msg):
     spec = a["attrs"]
-    if "both become field" not in msg:
-        if "not an importable name" in msg and any(own_slug(x["name"]) == "await" for x in spec):
-            return "C07-await-not-reserved"
-        return None
     try:
         renamed, finals = final_field_names(spec)
     except Exception:  # noqa: BLE001
         return None
+    ref_names, ref_finals = ref_field_names(spec)
+    if finals != ref_finals:
+        return None  # the implementation no longer does what is documented: not a known finding
+    if "both become field" not in msg:
+        bad = [n for n in finals if not importable_name(n)]
+        if bad and all(n == "await" for n in bad):
+            return "C07-await-not-reserved"
+        return None
     groups = {}
     for i, x in enumerate(spec):
         groups.setdefault(own_slug(x["name"]) or "value", []).append(i)
-    pair_members = {i for g in groups.values() if len(g) == 2 and spec[g[0]]["tag"] != "Enumeration" for i in g}
+    changed = {i for g in groups.values() if len(g) == 2 and spec[g[0]]["tag"] != "Enumeration"
+               for i in g if ref_names[i] != spec[i]["name"]}
     ids = set()
     for i, j in _collisions(finals):
-        if i in pair_members or j in pair_members:
+        if i in changed or j in changed:
+            # the member renamed by preference now collides (never re-checked)
             ids.add("C07-preference-rename-unchecked")
-            continue
-        si, sj = own_slug(renamed[i]), own_slug(renamed[j])
-        conv = lambda k: "screamingSnakeCase" if spec[k]["tag"] == "Enumeration" else "snakeCase"  # noqa: E731
-        rewritten = finals[i] != own_case(conv(i), renamed[i]) or finals[j] != own_case(conv(j), renamed[j])
-        if si != sj and rewritten:
+        elif own_slug(ref_names[i]) != own_slug(ref_names[j]) or "" in (own_slug(ref_names[i]), own_slug(ref_names[j])):
+            # different slugs (or the empty slug that is keyed as "value"): only safe_name's rewriting makes them equal
             ids.add("C07-safe-prefix-collision")
-            continue
-        if (si == "" or sj == "") and {si, sj} <= {"", "value"}:
-            ids.add("C07-safe-prefix-collision")
-            continue
-        return None
+        else:
+            return None
     return sorted(ids)[0] if ids else None
 
 
@@ -731,22 +831,68 @@ def oracle_classes(a):
 
 
 def covered_classes(a, msg):
-    if "both end up as class" not in msg:
+    m = re.match(r"classes #(\d+) .* and #(\d+) .* both end up as class", msg)
+    if not m:
         return None
     cs = a["classes"]
+    j, i = int(m.group(1)), int(m.group(2))
     unique = a["style"] in ("single-package", "clusters") or len({c["location"] for c in cs}) == 1
     key = lambda c: own_slug(c["qname"].split("}")[-1] if unique else c["qname"])  # noqa: E731
     groups = {}
-    for c in cs:
-        groups.setdefault(key(c), []).append(c)
-    for k, g in groups.items():
-        if len(g) == 2 and sum(c["abstract"] for c in g) == 1 and (k + "abstract") in groups:
+    for k, c in enumerate(cs):
+        groups.setdefault(key(c), []).append(k)
+    for p, q in ((i, j), (j, i)):
+        g = groups[key(cs[p])]
+        if (len(g) == 2 and cs[p]["abstract"] and sum(cs[k]["abstract"] for k in g) == 1
+                and key(cs[q]) == key(cs[p]) + "abstract"):
             return "C07-abstract-suffix-unchecked"
     return None
 
 
 def gen_oracle_classes(rng, tier):
     yield from gen_rename_classes(rng, "quick")
+
+
+def oracle_fresh(a):
+    """unique_name / next_qname / next_available_name must return a name whose slug is free."""
+    kind = a["fn"]
+    try:
+        if kind == "unique_name":
+            out = ClassUtils.unique_name(a["name"], set(a["reserved"]))
+            taken = set(a["reserved"])
+            key = own_slug(out)
+        elif kind == "next_qname":
+            io = impl_next_qname(a)
+            if "err" in io:
+                return f"next_qname raised {io['err']}"
+            out = io["ok"]
+            taken = set(a["reserved"])
+            key = own_slug(out.split("}")[-1] if a["use_names"] and out.startswith("{") else out)
+        else:
+            io = impl_next_available_name(a)
+            if "err" in io:
+                return f"next_available_name raised {io['err']}"
+            out = io["ok"]
+            taken = {own_slug(n.split("}")[-1] if n.startswith("{") else n) for n in a["inner"]}
+            key = own_slug(out)
+    except Exception as e:  # noqa: BLE001
+        return f"{kind} raised {type(e).__name__}"
+    if key in taken:
+        return f"{kind}({a['name']!r}) returned {out!r} whose slug {key!r} is already taken"
+    return None
+
+
+def adapt_fresh(op, a):
+    return {**a, "fn": op.split(".", 1)[1]}
+
+
+def gen_oracle_fresh(rng, tier):
+    for a in gen_unique_name(rng, tier):
+        yield adapt_fresh("names.unique_name", a)
+    for a in gen_next_qname(rng, tier):
+        yield adapt_fresh("names.next_qname", a)
+    for a in gen_next_available_name(rng, tier):
+        yield adapt_fresh("names.next_available_name", a)
 
 
 # ---- end-to-end on the real pipeline (no rendering: jinja2 is absent)
@@ -924,19 +1070,23 @@ def covered_pipeline(a, msg):
         srcs = ast.literal_eval(m.group(2))
         final = m.group(3)
         conv = m.group(4)
+        pfx = "value"
         count = lambda s: sum(1 for x in members if own_slug(x) == own_slug(s))  # noqa: E731
-        if any(count(s) == 2 for s in srcs):
-            # a two-member slug group was renamed by preference and never re-checked
-            return "C07-preference-rename-unchecked"
-        if len({own_slug(s) for s in srcs}) > 1 and any(own_case(conv, s) != final for s in srcs):
-            # different slugs: the handlers never saw a duplicate; safe_name rewrote one of the names
+        tags = ("Attribute", "Element", "Any", "AnyAttribute", "Extension", "Restriction")
+        for s0 in srcs:
+            if count(s0) == 2 and any(ref_safe_name(f"{s0}_{t}", pfx, conv) == final for t in tags):
+                # a two-member slug group, renamed by preference to name_Tag, never re-checked
+                return "C07-preference-rename-unchecked"
+        if len({own_slug(s0) for s0 in srcs}) > 1 and all(ref_safe_name(s0, pfx, conv) == final for s0 in srcs):
+            # different slugs, and the documented safe_name maps them to the same name
             return "C07-safe-prefix-collision"
         return None
     m = re.search(r"classes '([^']*)' and '([^']*)' are both named '([^']*)'", msg)
     if m:
         q1, q2, final = m.groups()
         n1, n2 = q1.split("}")[-1], q2.split("}")[-1]
-        if own_slug(n1) != own_slug(n2):
+        ccase = a.get("opts", {}).get("class_case", "pascalCase")
+        if own_slug(n1) != own_slug(n2) and ref_safe_name(n1, "type", ccase) == ref_safe_name(n2, "type", ccase) == final:
             return "C07-safe-prefix-collision"
     return None
 
@@ -1024,6 +1174,7 @@ ORACLES = [
     Oracle("c07.ident", gen_oracle_ident, oracle_ident, covered_ident, from_ops=("names.filter", "names.safe_name"), adapt=adapt_ident),
     Oracle("c07.fields", gen_oracle_fields, oracle_fields, covered_fields, from_ops=("names.rename_attrs",)),
     Oracle("c07.classes", gen_oracle_classes, oracle_classes, covered_classes, from_ops=("names.rename_classes",)),
+    Oracle("c07.fresh", gen_oracle_fresh, oracle_fresh, from_ops=("names.unique_name", "names.next_qname", "names.next_available_name"), adapt=adapt_fresh),
     Oracle("c07.pipeline", gen_pipeline, oracle_pipeline, covered_pipeline),
 ]
 
